@@ -913,6 +913,112 @@ def module_state_writes(fn: ast.AST, module_names: Iterable[str]) -> list[ast.AS
     return out
 
 
+def self_state_uses(fn: ast.AST) -> tuple[dict[str, list[ast.AST]], dict[str, list[ast.AST]]]:
+    """(writes, reads) of instance state in a method: attribute name -> nodes.
+    writes: `self.X = v`, `self.X[k] = v`, `self.X.append(..)` ..., `self.__dict__['X'] = v`, `self.__dict__.setdefault('X', d)`,
+            `setattr(self, 'X', v)` / `object.__setattr__(self, 'X', v)`, and the same through a local alias `a = self.__dict__.setdefault('X', {})` /
+            `a = self.X` followed by `a[k] = v` / `a.append(..)`;
+    reads:  any other mention (`self.X` loaded, `self.__dict__['X']`, `self.__dict__.get('X')`, `getattr(self, 'X', ..)`, `'X' in self.__dict__`,
+            `hasattr(self, 'X')`)"""
+    MUT = {"append", "extend", "insert", "pop", "remove", "clear", "update", "setdefault", "sort", "reverse", "discard", "add", "popitem", "__setitem__"}
+    a = getattr(fn, "args", None)
+    params = [x.arg for x in [*a.posonlyargs, *a.args]] if a is not None else []
+    if not params:
+        return {}, {}
+    me = params[0]
+    writes: dict[str, list[ast.AST]] = {}
+    reads: dict[str, list[ast.AST]] = {}
+
+    def is_me(e):
+        return isinstance(e, ast.Name) and e.id == me
+
+    def is_dict_of_me(e):
+        return isinstance(e, ast.Attribute) and e.attr == "__dict__" and is_me(e.value)
+
+    def attr_of(e) -> str | None:
+        "the state slot an expression denotes: self.X / self.__dict__['X'] / self.__dict__.setdefault('X', ..) / self.__dict__.get('X', ..) / getattr(self, 'X', ..)"
+        if isinstance(e, ast.Attribute) and is_me(e.value) and e.attr != "__dict__":
+            return e.attr
+        if isinstance(e, ast.Subscript) and is_dict_of_me(e.value):
+            return e.slice.value if isinstance(e.slice, ast.Constant) and isinstance(e.slice.value, str) else "<computed name>"
+        if isinstance(e, ast.Call) and isinstance(e.func, ast.Attribute) and e.func.attr in ("setdefault", "get") and is_dict_of_me(e.func.value) and e.args:
+            return e.args[0].value if isinstance(e.args[0], ast.Constant) and isinstance(e.args[0].value, str) else "<computed name>"
+        if isinstance(e, ast.Call) and isinstance(e.func, ast.Name) and e.func.id == "getattr" and len(e.args) >= 2 and is_me(e.args[0]) \
+                and isinstance(e.args[1], ast.Constant) and isinstance(e.args[1].value, str):
+            return e.args[1].value
+        return None
+    alias: dict[str, str] = {}
+    for n in N.walk_no_nested_defs(fn):
+        if isinstance(n, (ast.Assign, ast.AnnAssign)) and getattr(n, "value", None) is not None:
+            tg = n.targets if isinstance(n, ast.Assign) else [n.target]
+            x = attr_of(n.value)
+            if x is not None and len(tg) == 1 and isinstance(tg[0], ast.Name):
+                alias[tg[0].id] = x
+
+    def slot(e) -> str | None:
+        "state slot reached from a store target / mutated receiver (through subscripts, and through a local alias)"
+        while True:
+            x = attr_of(e)
+            if x is not None:
+                return x
+            if isinstance(e, ast.Name) and e.id in alias:
+                return alias[e.id]
+            if isinstance(e, ast.Subscript):
+                e = e.value
+                continue
+            return None
+    written_nodes = set()
+    for n in N.walk_no_nested_defs(fn):
+        tg = []
+        if isinstance(n, ast.Assign):
+            tg = n.targets
+        elif isinstance(n, (ast.AugAssign, ast.AnnAssign)):
+            tg = [n.target]
+        elif isinstance(n, ast.Delete):
+            tg = n.targets
+        for t in tg:
+            for tt in (t.elts if isinstance(t, (ast.Tuple, ast.List)) else [t]):
+                if isinstance(tt, ast.Name):
+                    continue  # rebinding a local (also an alias) writes nothing
+                x = slot(tt)
+                if x is not None:
+                    writes.setdefault(x, []).append(n)
+                    written_nodes.update(id(z) for z in ast.walk(tt))
+                    if isinstance(n, ast.AugAssign):
+                        reads.setdefault(x, []).append(n)
+        if isinstance(n, ast.Call):
+            if isinstance(n.func, ast.Attribute) and n.func.attr in MUT:
+                if is_dict_of_me(n.func.value) and n.func.attr == "setdefault" and n.args:
+                    writes.setdefault(str(n.args[0].value) if isinstance(n.args[0], ast.Constant) else "<computed name>", []).append(n)
+                    written_nodes.update(id(z) for z in ast.walk(n.func))
+                else:
+                    x = slot(n.func.value)
+                    if x is not None:
+                        writes.setdefault(x, []).append(n)
+            d = None
+            if isinstance(n.func, ast.Name) and n.func.id == "setattr":
+                d = n.args
+            elif isinstance(n.func, ast.Attribute) and n.func.attr == "__setattr__" and n.args and is_me(n.args[0]):
+                d = n.args
+            if d and len(d) >= 2 and is_me(d[0]) and isinstance(d[1], ast.Constant) and isinstance(d[1].value, str):
+                writes.setdefault(d[1].value, []).append(n)
+    for n in N.walk_no_nested_defs(fn):
+        if id(n) in written_nodes:
+            continue
+        x = attr_of(n)
+        if x is None and isinstance(n, ast.Compare) and len(n.ops) == 1 and isinstance(n.ops[0], (ast.In, ast.NotIn)) and is_dict_of_me(n.comparators[0]) \
+                and isinstance(n.left, ast.Constant) and isinstance(n.left.value, str):
+            x = n.left.value
+        if x is None and isinstance(n, ast.Call) and isinstance(n.func, ast.Name) and n.func.id == "hasattr" and len(n.args) == 2 and is_me(n.args[0]) \
+                and isinstance(n.args[1], ast.Constant) and isinstance(n.args[1].value, str):
+            x = n.args[1].value
+        if x is None and isinstance(n, ast.Name) and isinstance(n.ctx, ast.Load) and n.id in alias:
+            x = alias[n.id]
+        if x is not None and isinstance(getattr(n, "ctx", ast.Load()), ast.Load):
+            reads.setdefault(x, []).append(n)
+    return writes, reads
+
+
 def value_candidates(fn: ast.FunctionDef, name_or_none: str | None = None):
     """what a function can return, each with the branch literals under which it is produced:
     [(expression, [(test, polarity), ...])] - for `return <expr>` the expression itself; for `return <name>` every definition of that
